@@ -458,6 +458,63 @@ theorem C16_pool_raw_value_is_wrong :
     poolProb "values" poolWitness (1/2) 1 = .ok (.scalar (3/40)) ∧ poolProb "v" poolWitness (1/2) 1 = .ok (.scalar (1/4)) := by
   refine ⟨by decide +kernel, by decide +kernel⟩
 
+/-! ### Round 4: recovery fires on the clock it was scheduled on; the step length in years does not depend on the form of the axis -/
+
+/-- `Time.init` (regenerated): for a numeric AND for a calendar time axis `dt_year` is the step length in years -/
+theorem C16_dt_year_is_step_in_years (numeric : Bool) (unit : UnitT) (dt : Option Rat) :
+    dtYear numeric unit dt = timeRatio unit dt (some "year") (some 1) := by
+  cases numeric <;> (unfold dtYear dtYearOf; simp only [Bool.false_eq_true, if_false, if_true]; rw [if_pos (by decide)])
+
+/-- hence the ageing increment (`sim.t.dt_year`) is `dtYear` of the sim's timeline, numeric or not -/
+theorem C16_ageing_any_axis (numeric : Bool) (unit : UnitT) (dt : Option Rat) : ageIncrement unit dt = dtYear numeric unit dt := by
+  rw [C16_ageing_increment_is_dt_year, C16_dt_year_is_step_in_years]
+
+/-- what the raw-`dt` form would do on a numeric day axis (sensitivity of the model to the regenerated fact): one year per daily step -/
+theorem C16_dt_year_raw_is_wrong : dtYearOf "dt" (some "day") (some 1) = .ok 1 ∧ dtYearOf "ratio" (some "day") (some 1) ≠ .ok 1 := by
+  refine ⟨by decide +kernel, by decide +kernel⟩
+
+/-- SIS (regenerated): recovery is scheduled and triggered on the MODULE's step counter -/
+theorem C16_sis_recovery_on_module_clock : Gen.sisSchedClock = "module" ∧ Gen.sisRecoverClock = "module" := by decide
+
+/-- SIR (regenerated): as is — scheduled on the module's counter, triggered on the SIM's (the defect) — or consistent -/
+theorem C16_sir_recovery_clock_variant :
+    (Gen.sirSchedClock = "module" ∧ Gen.sirRecoverClock = "sim") ∨ (Gen.sirSchedClock = "module" ∧ Gen.sirRecoverClock = "module") := by decide
+
+theorem recoveredAt_module (m s d : Rat) (k : Nat) : recoveredAt "module" "module" m s d k = .ok (decide (d ≤ (k : Rat))) := by
+  simp [recoveredAt, clockAt]
+
+/-- **Realised duration, consistent clocks**: an infection of `d` module steps (d = D / step) is over at module step `n = ⌈d⌉` and not
+    before; in time, `D ≤ n·step < D + step` — for every module step `m` and whatever the sim's step `s` is -/
+theorem C16_realised_duration_steps {d m : Rat} (hd : 0 < d) (hm : 0 < m) (s : Rat) :
+    let n := (Int.ceil d).toNat
+    (∀ k, k < n → recoveredAt "module" "module" m s d k = .ok false) ∧ (∀ k, n ≤ k → recoveredAt "module" "module" m s d k = .ok true) ∧
+    d * m ≤ (n : Rat) * m ∧ (n : Rat) * m < d * m + m := by
+  intro n
+  obtain ⟨h1, h2, h3, h4⟩ := C16_edge_duration_steps hd (show (0 : Rat) < 1 by norm_num)
+  simp only [div_one, mul_one] at h1 h2 h3 h4
+  refine ⟨?_, ?_, by nlinarith, by nlinarith⟩
+  · intro k hk
+    have := h1 k hk
+    simp only [edgeActive, edgeDurAfter, mul_one, decide_eq_true_eq] at this
+    rw [recoveredAt_module]; congr 1; simp; linarith
+  · intro k hk
+    have := h2 k hk
+    simp only [edgeActive, edgeDurAfter, mul_one, decide_eq_false_iff_not, not_lt] at this
+    rw [recoveredAt_module]; congr 1; simp; linarith
+
+/-- **Partial** (as-is SIR): when the module steps in lockstep with the sim (`m = s`) the sim's counter IS the module's -/
+theorem C16_sir_recovery_partial {m : Rat} (hm : m ≠ 0) (d : Rat) (k : Nat) :
+    recoveredAt "module" "sim" m m d k = recoveredAt "module" "module" m m d k := by
+  have hf : Rat.ceil (k : Rat) = (k : Int) := by simpa using Rat.ceil_intCast (k : Int)
+  simp [recoveredAt, clockAt, hm, hf]
+
+/-- **Counterexample** (as-is SIR, kernel-evaluated): module step 1, sim step 1/2, duration 10 module steps — recovered at module step 5
+    (after half the duration); and with module step 1, sim step 2 still infected at module step 18 (sim.ti = 9) -/
+theorem C16_sir_recovery_counterexample :
+    recoveredAt "module" "sim" 1 (1/2) 10 5 = .ok true ∧ recoveredAt "module" "module" 1 (1/2) 10 5 = .ok false ∧
+    recoveredAt "module" "sim" 1 2 10 18 = .ok false ∧ recoveredAt "module" "module" 1 2 10 18 = .ok true := by
+  refine ⟨by decide +kernel, by decide +kernel, by decide +kernel, by decide +kernel⟩
+
 /-! ### Non-vacuity -/
 
 /-- `deathsWitness` is a `RateReady` object (the default `ss.peryear(20)` in a yearly module with dt = 1/5) -/
@@ -498,5 +555,10 @@ example : ∃ lu lpu, unitLen "day" = some lu ∧ unitLen "week" = some lpu ∧
 
 /-- `poolWitness` has per-step values, so `C16_pool_prob_per_step` applies to it -/
 example : poolWitness.values = some (.scalar (3/20)) := rfl
+
+/-- `C16_realised_duration_steps` is not vacuous: 20 days in a module stepping 2 days = 10 steps; 7/2 steps round up to 4 -/
+example : recoveredAt "module" "module" 2 1 10 9 = .ok false ∧ recoveredAt "module" "module" 2 1 10 10 = .ok true ∧
+    recoveredAt "module" "module" 1 1 (7/2) 3 = .ok false ∧ recoveredAt "module" "module" 1 1 (7/2) 4 = .ok true := by
+  refine ⟨by decide +kernel, by decide +kernel, by decide +kernel, by decide +kernel⟩
 
 end StarsimModel.C16
